@@ -1,5 +1,6 @@
 import TrucModel.Model.Replay
 import TrucModel.Model.VecConvert
+import TrucModel.Model.Gen
 /-
   Line-protocol driver (channel L): one request per line on stdin, one answer per line on stdout.
 -/
@@ -153,6 +154,14 @@ def dstep (s : DState) (line : String) : DState × String :=
     | ["display"] =>
       match s.built with
       | some d => (match d.display with | some t => (s, "text " ++ escape t) | none => (s, "panic"))
+      | none => (s, "bad-op")
+    | ["gen", flags] =>
+      match s.built with
+      | some d =>
+        let cfg : Gen.Cfg := { clone := flags.contains 'c', serde := flags.contains 's' }
+        (s, match Gen.module d cfg with
+          | some items => "ir " ++ "\t".intercalate (Gen.render items)
+          | none => "panic")
       | none => (s, "bad-op")
     | ["replay", st] =>
       match s.built, parseStrategy st with
